@@ -114,10 +114,19 @@ class BasicBlockNode:
         Args:
             index: The index of the instruction
 
+        A non-negative index is a position in the basic block (which may also contain
+        pseudo-instructions such as TryBegin or TryEnd); a negative index counts the
+        instructions from the end of the block.
+
         Returns:
             The instruction at the given index
         """
-        return tuple(instr for instr in self.instructions)[index]
+        if index < 0:
+            return tuple(instr for instr in self.instructions)[index]
+        instr = self._basic_block[index]
+        if not isinstance(instr, Instr):
+            raise IndexError(f"No instruction at index {index}")
+        return instr
 
     def try_get_instruction(self, index: int) -> Instr | None:
         """Try to get the instruction at the given index.
@@ -158,10 +167,8 @@ class BasicBlockNode:
         while instr_index < len(self._basic_block):
             instr = self.try_get_instruction(instr_index)
 
-            if instr is None:
-                break
-
-            if isinstance(instr, ArtificialInstr):
+            # Skip pseudo-instructions (e.g., TryEnd) and instrumentation instructions
+            if instr is None or isinstance(instr, ArtificialInstr):
                 instr_index += 1
                 continue
 
@@ -169,7 +176,8 @@ class BasicBlockNode:
 
             # Update the instr_index to retarget at the original instruction
             while (
-                isinstance(new_instr := self._get_instruction(instr_index), ArtificialInstr)
+                (new_instr := self.try_get_instruction(instr_index)) is None
+                or isinstance(new_instr, ArtificialInstr)
                 or new_instr != instr
             ):
                 instr_index += 1
@@ -187,8 +195,8 @@ class BasicBlockNode:
         """
         return tuple(
             (instr_index, instr)
-            for instr_index, instr in enumerate(self.instructions)
-            if not isinstance(instr, ArtificialInstr)
+            for instr_index, instr in enumerate(self._basic_block)
+            if isinstance(instr, Instr) and not isinstance(instr, ArtificialInstr)
         )[original_index]
 
     def __eq__(self, other: object) -> bool:
